@@ -284,6 +284,9 @@ SELFTESTS = [
     dict(rule="C15.drop", name="drop-instead-of-clear-twin", expect="silent", path=_PM,
          old="        for communication in &self.communication {\n            let _ = communication.send.send(None);\n        }\n        self.communication.clear();\n",
          new="        drop(std::mem::take(&mut self.communication));\n"),
+    dict(rule="C15.rot", name="recv-with-timeout", expect="fire", path=_PM,
+         old="self.communication[self.now].receive.recv().unwrap_or_default();",
+         new="self.communication[self.now].receive.recv_timeout(std::time::Duration::from_secs(10)).unwrap_or_default();"),
     dict(rule="C15.channels", name="rendezvous-channels", expect="fire", path=_PM,
          old="let (tx_item, rx_item) = std::sync::mpsc::channel::<Option<Item>>();",
          new="let (tx_item, rx_item) = std::sync::mpsc::sync_channel::<Option<Item>>(0);"),
